@@ -458,7 +458,7 @@ the shape is claimed: usable under `in` and `len`), the conditional with branche
 predicate builtins `all none any one count` with a closure, member access `x.f` / `x?.f` on values of
 struct or pointer-to-struct type (name resolution of the current code, `cfg.dn = NDefects.asIs`; value typing
 `Conf`: every member the checker resolves can be fetched and conforms, so pointers typed as structs are
-not nil), `map[string]interface{}` values (member, index, `in`, `len`; the result an `interface{}`, of
+not nil), slices of structs (index, `#`, the builtins with closures over struct elements), `map[string]interface{}` values (member, index, `in`, `len`; the result an `interface{}`, of
 which nothing is claimed but that the access does not fail), indexing a `[]interface{}`, `in` on structs,
 map literals, and — behind hypotheses on the world, switched on by the two flags of `inFrag2` — calls of
 environment functions (`WorldConforms`) and `matches` (`RegexTotal`: the patterns met compile; `Spec.eval`
@@ -829,6 +829,33 @@ example : inFrag2 { methods := true } exprMethods = true ∧ inFrag2 {} exprMeth
     -- a wrong argument type or an unknown method is outside
     typed2 (cfgWith6 .asIs) [] (.method {} (ident "M") "Add" [.str {} "a", .int {} 2] false) = false ∧
     typed2 (cfgWith6 .asIs) [] (.method {} (ident "I") "Add" [] false) = false := by
+  decide +kernel
+
+/-- `all(Sts, {#.X > I}) and Sts[0].Y == "a" and len(Sts) > count(Sts, {any(Sts, {#.X > 1}) and #.Y != ""})` over `envTy4` -/
+def exprSts : Node :=
+  let hX : Node := .prop {} (.pointer {}) "X" false
+  let hY : Node := .prop {} (.pointer {}) "Y" false
+  .binary {} "and"
+    (.binary {} "and"
+      (.builtin {} "all" [ident "Sts", .closure {} (.binary {} ">" hX (ident "I"))])
+      (.binary {} "==" (.prop {} (.index {} (ident "Sts") (.int {} 0)) "Y" false) (.str {} "a")))
+    (.binary {} ">" (.builtin {} "len" [ident "Sts"])
+      (.builtin {} "count" [ident "Sts", .closure {} (.binary {} "and"
+        (.builtin {} "any" [ident "Sts", .closure {} (.binary {} ">" hX (.int {} 1))])
+        (.binary {} "!=" hY (.str {} "")))]))
+
+/-- `len(map(Sts, {#.Y})) == len(filter(Sts, {#.X > 0}))` -/
+def exprStsFM : Node :=
+  .binary {} "==" (.builtin {} "len" [.builtin {} "map" [ident "Sts", .closure {} (.prop {} (.pointer {}) "Y" false)]])
+    (.builtin {} "len" [.builtin {} "filter" [ident "Sts", .closure {} (.binary {} ">" (.prop {} (.pointer {}) "X" false) (.int {} 0))]])
+
+example : inFrag2 {} exprSts = true ∧ typed2 (cfgWith4 .asIs) [] exprSts = true ∧
+    (check (cfgWith4 .asIs) exprSts).okType = some boolTy ∧
+    -- `map` / `filter` over structs: in the fragment under the documented result type only
+    typed2 (cfgWith4 .asIs) [] (.builtin {} "len" [.slice {} (ident "Sts") (some (.int {} 1)) none]) = true ∧
+    inFrag2 {} exprStsFM = true ∧ typed2 (cfgWith4 .repaired) [] exprStsFM = true ∧
+    typed2 (cfgWith4 .asIs) [] exprStsFM = false ∧
+    (check (cfgWith4 .repaired) exprStsFM).okType = some boolTy := by
   decide +kernel
 
 private theorem zaFields (name : String) :
